@@ -20,7 +20,8 @@ From Coq Require Import List Bool Arith.
 Import ListNotations.
 
 (* what the editor / the debugger front end still has to do, in this order; delivery interleaves freely with the threads *)
-Inductive action := LspShutdown | LspExit | LspClose | DapDisconnect.
+Inductive action := LspShutdown | LspExit | LspClose | DapDisconnect
+  | DapConnect.      (* a debugger front end connects to the debug port (only used by the `reconnect` scenarios) *)
 Inductive pipe_item := PShutdown | PExit | PEof.
 
 Inductive main_pc :=
@@ -41,7 +42,9 @@ Inductive dbg_pc :=
   | DExited          (* thread function returned *)
   | DPanicked.       (* thread died by a panic *)
 
-Inductive client := CNone | CConnected | CClosed.     (* the DAP front end's socket, as seen by the session *)
+(* the DAP front end: not there / waiting in the accept queue / attached to the current session / the current session's
+   peer has closed / the current session's peer (a wake-up connection) has closed and a front end waits in the queue *)
+Inductive client := CNone | CPending | CConnected | CClosed | CClosedPending.
 Inductive machine := MachNone | MachRunning | MachPaused.
 
 Record state := mkState {
@@ -59,6 +62,7 @@ Record state := mkState {
   st_client : client;
   st_wake : bool;                 (* a connection made by DebugServer::join is waiting in the accept queue *)
   st_machine : machine;
+  st_poisoned : bool;             (* the debug thread panicked while it held the Mutex<LspContext>: the lock is poisoned *)
   st_expect : nat                 (* ghost: the exit status the property demands for this script *)
 }.
 
@@ -68,7 +72,9 @@ Record variant := mkVariant {
   v_conn_dropped_before_join : bool;   (* the Arc<Connection> is dropped before IoThreads::join *)
   v_join_wakes : bool;            (* DebugServer::join: invoke_shutdown_handlers + self-connect until the thread is finished *)
   v_select_completes : bool;      (* the shutdown arm of the select completes the selected operation (oper.recv) *)
-  v_register_before_accept : bool (* add_shutdown_handler is called before the blocking accept *)
+  v_register_before_accept : bool; (* add_shutdown_handler is called before the blocking accept *)
+  v_join_tolerates_dead : bool;   (* DebugServer::join logs a debug thread that died by panic instead of `expect`ing *)
+  v_recovers_poison : bool        (* the LSP side takes the context out of a poisoned lock instead of unwrapping the LockResult *)
 }.
 
 (* strong count of Arc<Mutex<LspContext>>: LspServer + DebugServer.lsp + (thread closure + its current DebugSession) *)
@@ -80,16 +86,16 @@ Definition dbg_finished (s : state) : bool :=
 
 Definition set_main (s : state) (m : main_pc) : state :=
   mkState (st_script s) (st_pipe s) m (st_reader_done s) (st_writer_done s) (st_ctx_conn s) (st_tmp_conn s) (st_dbg s)
-          (st_flag s) (st_registered s) (st_signalled s) (st_client s) (st_wake s) (st_machine s) (st_expect s).
+          (st_flag s) (st_registered s) (st_signalled s) (st_client s) (st_wake s) (st_machine s) (st_poisoned s) (st_expect s).
 Definition set_dbg (s : state) (d : dbg_pc) : state :=
   mkState (st_script s) (st_pipe s) (st_main s) (st_reader_done s) (st_writer_done s) (st_ctx_conn s) (st_tmp_conn s) d
-          (st_flag s) (st_registered s) (st_signalled s) (st_client s) (st_wake s) (st_machine s) (st_expect s).
+          (st_flag s) (st_registered s) (st_signalled s) (st_client s) (st_wake s) (st_machine s) (st_poisoned s) (st_expect s).
 
 (* LspContext::invoke_shutdown_handlers: take all handlers, send () to each *)
 Definition invoke_shutdown_handlers (s : state) : state :=
   if st_registered s then
     mkState (st_script s) (st_pipe s) (st_main s) (st_reader_done s) (st_writer_done s) (st_ctx_conn s) (st_tmp_conn s) (st_dbg s)
-            (st_flag s) false true (st_client s) (st_wake s) (st_machine s) (st_expect s)
+            (st_flag s) false true (st_client s) (st_wake s) (st_machine s) (st_poisoned s) (st_expect s)
   else s.
 
 (* ------------------------------------------------------------------ the environment *)
@@ -98,27 +104,35 @@ Definition env_steps (s : state) : list state :=
   | [] => []
   | a :: rest =>
       let base p c := mkState rest p (st_main s) (st_reader_done s) (st_writer_done s) (st_ctx_conn s) (st_tmp_conn s) (st_dbg s)
-                              (st_flag s) (st_registered s) (st_signalled s) c (st_wake s) (st_machine s) (st_expect s) in
+                              (st_flag s) (st_registered s) (st_signalled s) c (st_wake s) (st_machine s) (st_poisoned s) (st_expect s) in
       match a with
       | LspShutdown => [base (st_pipe s ++ [PShutdown]) (st_client s)]
       | LspExit => [base (st_pipe s ++ [PExit]) (st_client s)]
       | LspClose => [base (st_pipe s ++ [PEof]) (st_client s)]
-      | DapDisconnect => [base (st_pipe s) (match st_client s with CConnected => CClosed | c => c end)]
+      | DapDisconnect => [base (st_pipe s) (match st_client s with CConnected => CClosed | CPending => CNone | CClosedPending => CClosed | c => c end)]
+      | DapConnect => [base (st_pipe s) (match st_client s with CNone => CPending | CClosed => CClosedPending | c => c end)]
       end
   end.
 
 (* ------------------------------------------------------------------ the main thread *)
 Definition pop_pipe (s : state) (m : main_pc) (reader_done : bool) : state :=
   mkState (st_script s) (tl (st_pipe s)) m reader_done (st_writer_done s) (st_ctx_conn s) (st_tmp_conn s) (st_dbg s)
-          (st_flag s) (st_registered s) (st_signalled s) (st_client s) (st_wake s) (st_machine s) (st_expect s).
+          (st_flag s) (st_registered s) (st_signalled s) (st_client s) (st_wake s) (st_machine s) (st_poisoned s) (st_expect s).
 
 Definition lsp_actions_left (s : state) : bool :=
-  existsb (fun a => match a with DapDisconnect => false | _ => true end) (st_script s).
+  existsb (fun a => match a with DapDisconnect | DapConnect => false | _ => true end) (st_script s).
 
 Definition main_steps (v : variant) (s : state) : list state :=
   match st_main s with
   | MLoop =>
       if st_reader_done s then [set_main s MAfterLoop]          (* receiver disconnected: the `for` loop ends *)
+      else if st_poisoned s && negb (v_recovers_poison v) then
+             (* handle_message: cloned_ctx.lock().unwrap() on a poisoned lock *)
+             match st_pipe s with
+             | [] => []
+             | PEof :: _ => [pop_pipe s MLoop true]
+             | _ :: _ => [pop_pipe s (MExited 101) false]
+             end
       else match st_pipe s with
            | PShutdown :: _ =>
                (* handle_message: invoke_shutdown_handlers, then handle_shutdown sends the response and waits *)
@@ -140,23 +154,24 @@ Definition main_steps (v : variant) (s : state) : list state :=
           (* LspContext::join(self): `if let Some(io) = self.connection.unwrap().1 { io.join()? }` *)
           [mkState (st_script s) (st_pipe s) MIoJoinReader (st_reader_done s) (st_writer_done s) false
                    (negb (v_conn_dropped_before_join v)) (st_dbg s) (st_flag s) (st_registered s) (st_signalled s)
-                   (st_client s) (st_wake s) (st_machine s) (st_expect s)]
+                   (st_client s) (st_wake s) (st_machine s) (st_poisoned s) (st_expect s)]
         else [set_main s (MExited 101)]                          (* .ok().unwrap() on None *)
+      else if st_poisoned s && negb (v_recovers_poison v) then [set_main s (MExited 101)]   (* lock_context().unwrap() *)
       else
         (* let connection = self.lock_context().connection.take(); drop(connection) or not; io_threads.join() *)
         [mkState (st_script s) (st_pipe s) MIoJoinReader (st_reader_done s) (st_writer_done s) false
                  (negb (v_conn_dropped_before_join v)) (st_dbg s) (st_flag s) (st_registered s) (st_signalled s)
-                 (st_client s) (st_wake s) (st_machine s) (st_expect s)]
+                 (st_client s) (st_wake s) (st_machine s) (st_poisoned s) (st_expect s)]
   | MIoJoinReader => if st_reader_done s then [set_main s MIoJoinWriter] else []
   | MIoJoinWriter => if st_writer_done s then [set_main s MDbgJoin] else []
   | MDbgJoin =>
       (* self.shutdown.store(true) *)
       [mkState (st_script s) (st_pipe s) MDbgWait (st_reader_done s) (st_writer_done s) (st_ctx_conn s) false (st_dbg s)
-               true (st_registered s) (st_signalled s) (st_client s) (st_wake s) (st_machine s) (st_expect s)]
+               true (st_registered s) (st_signalled s) (st_client s) (st_wake s) (st_machine s) (st_poisoned s) (st_expect s)]
   | MDbgWait =>
       match st_dbg s with
       | DExited => [set_main s (MExited 0)]                      (* thread.join() -> Ok; lsp_command returns Ok *)
-      | DPanicked => [set_main s (MExited 101)]                  (* .expect("Could not join debugger thread") *)
+      | DPanicked => [set_main s (MExited (if v_join_tolerates_dead v then 0 else 101))]   (* log  /  .expect("Could not join debugger thread") *)
       | _ =>
           if v_join_wakes v then
             (* while !thread.is_finished() { invoke_shutdown_handlers(); TcpStream::connect(port); sleep } --
@@ -165,7 +180,7 @@ Definition main_steps (v : variant) (s : state) : list state :=
             (match st_dbg s with
              | DAccept => if st_wake s then [] else
                  [mkState (st_script s) (st_pipe s) (st_main s) (st_reader_done s) (st_writer_done s) (st_ctx_conn s) (st_tmp_conn s)
-                          (st_dbg s) (st_flag s) (st_registered s) (st_signalled s) (st_client s) true (st_machine s) (st_expect s)]
+                          (st_dbg s) (st_flag s) (st_registered s) (st_signalled s) (st_client s) true (st_machine s) (st_poisoned s) (st_expect s)]
              | _ => []
              end)
           else []                                                 (* blocked in JoinHandle::join *)
@@ -179,39 +194,47 @@ Definition writer_steps (s : state) : list state :=
   else if st_ctx_conn s || st_tmp_conn s || (match st_main s with MLoop | MShutdownWait => true | _ => false end) then []
   else  (* every Sender is gone: writer_receiver.into_iter() ends *)
     [mkState (st_script s) (st_pipe s) (st_main s) (st_reader_done s) true (st_ctx_conn s) (st_tmp_conn s) (st_dbg s)
-             (st_flag s) (st_registered s) (st_signalled s) (st_client s) (st_wake s) (st_machine s) (st_expect s)].
+             (st_flag s) (st_registered s) (st_signalled s) (st_client s) (st_wake s) (st_machine s) (st_poisoned s) (st_expect s)].
 
 (* ------------------------------------------------------------------ the debug-server thread *)
 Definition end_session (s : state) : state :=     (* DebugSession dropped: its ShutdownReceiverHandle unregisters *)
   mkState (st_script s) (st_pipe s) (st_main s) (st_reader_done s) (st_writer_done s) (st_ctx_conn s) (st_tmp_conn s) DCheck
-          (st_flag s) false false CNone (st_wake s) (st_machine s) (st_expect s).
+          (st_flag s) false false (match st_client s with CClosedPending => CPending | _ => CNone end) (st_wake s) (st_machine s) (st_poisoned s) (st_expect s).
 
 Definition dbg_steps (v : variant) (s : state) : list state :=
   match st_dbg s with
   | DCheck => if st_flag s then [set_dbg s DExited]
               else if v_register_before_accept v then
                 [mkState (st_script s) (st_pipe s) (st_main s) (st_reader_done s) (st_writer_done s) (st_ctx_conn s) (st_tmp_conn s) DAccept
-                         (st_flag s) true false (st_client s) (st_wake s) (st_machine s) (st_expect s)]
+                         (st_flag s) true false (st_client s) (st_wake s) (st_machine s) (st_poisoned s) (st_expect s)]
               else [set_dbg s DAccept]
   | DAccept =>
-      (* only a connection ends the blocking accept; the only ones left at shutdown time are DebugServer::join's *)
+      (* only a connection ends the blocking accept: DebugServer::join's wake-up, or a front end *)
       (if st_wake s then
         (* the peer closes at once: the session's reader sees EOF *)
         [mkState (st_script s) (st_pipe s) (st_main s) (st_reader_done s) (st_writer_done s) (st_ctx_conn s) (st_tmp_conn s)
                  (if v_register_before_accept v then DSelect else DRegister)
-                 (st_flag s) (st_registered s) (st_signalled s) CClosed false (st_machine s) (st_expect s)]
+                 (st_flag s) (st_registered s) (st_signalled s) (match st_client s with CPending => CClosedPending | _ => CClosed end)
+                 false (st_machine s) (st_poisoned s) (st_expect s)]
       else []) ++
+      (match st_client s with
+       | CPending =>
+           [mkState (st_script s) (st_pipe s) (st_main s) (st_reader_done s) (st_writer_done s) (st_ctx_conn s) (st_tmp_conn s)
+                    (if v_register_before_accept v then DSelect else DRegister)
+                    (st_flag s) (st_registered s) (st_signalled s) CConnected (st_wake s) (st_machine s) (st_poisoned s) (st_expect s)]
+       | _ => []
+       end) ++
       (* with the handler registered before accept, a signal can also be noticed only after accept returns: no step *)
       []
   | DRegister =>
       [mkState (st_script s) (st_pipe s) (st_main s) (st_reader_done s) (st_writer_done s) (st_ctx_conn s) (st_tmp_conn s) DSelect
-               (st_flag s) true false (st_client s) (st_wake s) (st_machine s) (st_expect s)]
+               (st_flag s) true false (st_client s) (st_wake s) (st_machine s) (st_poisoned s) (st_expect s)]
   | DSelect =>
       (if st_signalled s then
          if v_select_completes v then [end_session s]
          else [set_dbg s DPanicked]          (* "dropped `SelectedOperation` without completing the operation" *)
        else []) ++
-      (match st_client s with CClosed => [end_session s] | _ => [] end)   (* oper.recv(receiver) -> Err: break *)
+      (match st_client s with CClosed | CClosedPending => [end_session s] | _ => [] end)   (* oper.recv(receiver) -> Err: break *)
   | DExited | DPanicked => []
   end.
 
@@ -227,7 +250,7 @@ Fixpoint spec_exit_code (script : list action) : nat :=
   | [] => 0
   | LspClose :: _ => 0
   | LspExit :: _ => 0
-  | DapDisconnect :: t => spec_exit_code t
+  | DapDisconnect :: t | DapConnect :: t => spec_exit_code t
   | LspShutdown :: t =>
       (fix after (t : list action) : nat :=
          match t with
@@ -235,22 +258,25 @@ Fixpoint spec_exit_code (script : list action) : nat :=
          | LspExit :: _ => 0
          | LspClose :: _ => 1
          | LspShutdown :: _ => 1
-         | DapDisconnect :: t' => after t'
+         | DapDisconnect :: t' | DapConnect :: t' => after t'
          end) t
   end.
 
 Definition initial (attached : bool) (m : machine) (script : list action) : state :=
   mkState script [] MLoop false false true false
           (if attached then DSelect else DAccept) false attached false
-          (if attached then CConnected else CNone) false m (spec_exit_code script).
+          (if attached then CConnected else CNone) false m false (spec_exit_code script).
+(* the debug-server thread has already died by a panic (e.g. in a request handler), possibly while it held the context lock *)
+Definition initial_dead (poisoned : bool) (script : list action) : state :=
+  mkState script [] MLoop false false true false DPanicked false false false CNone false MachNone poisoned (spec_exit_code script).
 
 Definition has_lsp_action (script : list action) : bool :=
-  existsb (fun a => match a with DapDisconnect => false | _ => true end) script.
+  existsb (fun a => match a with DapDisconnect | DapConnect => false | _ => true end) script.
 
 (* every sequence without repetition over the four actions that contains an LSP action *)
 Definition action_eqb (a b : action) : bool :=
   match a, b with
-  | LspShutdown, LspShutdown | LspExit, LspExit | LspClose, LspClose | DapDisconnect, DapDisconnect => true
+  | LspShutdown, LspShutdown | LspExit, LspExit | LspClose, LspClose | DapDisconnect, DapDisconnect | DapConnect, DapConnect => true
   | _, _ => false
   end.
 Definition all_actions : list action := [LspShutdown; LspExit; LspClose; DapDisconnect].
@@ -261,21 +287,36 @@ Fixpoint seqs_exact (n : nat) : list (list action) :=
   end.
 Definition all_scripts : list (list action) :=
   filter has_lsp_action (seqs_exact 1 ++ seqs_exact 2 ++ seqs_exact 3 ++ seqs_exact 4).
+(* the `reconnect` scenarios: a front end connects at some point while the editor shuts down *)
+Definition actions_with_connect : list action := [LspShutdown; LspExit; LspClose; DapDisconnect; DapConnect].
+Fixpoint seqs_exact5 (n : nat) : list (list action) :=
+  match n with
+  | O => [[]]
+  | S k => flat_map (fun t => map (fun a => a :: t) (filter (fun a => negb (existsb (action_eqb a) t)) actions_with_connect)) (seqs_exact5 k)
+  end.
+Definition reconnect_scripts : list (list action) :=
+  filter (fun sc => has_lsp_action sc && existsb (action_eqb DapConnect) sc) (seqs_exact5 2 ++ seqs_exact5 3 ++ seqs_exact5 4).
+Definition reconnect_initial : list state :=
+  flat_map (fun sm => map (initial (fst sm) (snd sm)) reconnect_scripts) [(false, MachNone); (true, MachNone)].
 Definition all_machines : list machine := [MachNone; MachRunning; MachPaused].
 (* the session states of the property: no debugger / attached and idle / test running / test paused *)
 Definition session_states : list (bool * machine) :=
   [(false, MachNone); (true, MachNone); (true, MachRunning); (true, MachPaused)].
-Definition all_initial : list state :=
+Definition live_initial : list state :=
   flat_map (fun sm => map (initial (fst sm) (snd sm)) all_scripts) session_states.
+Definition all_initial : list state :=
+  live_initial ++
+  map (initial_dead false) all_scripts ++ map (initial_dead true) all_scripts.
 
 Definition clean_exit (s : state) : bool :=
   match st_main s with MExited c => Nat.eqb c (st_expect s) | _ => false end.
 
 (* the code as it was on the pinned tree, the intermediate repairs, and the complete repair *)
-Definition v_pinned : variant := mkVariant true false false false false.
-Definition v_take_only : variant := mkVariant false false false false false.       (* unwrap replaced, nothing else *)
-Definition v_take_drop : variant := mkVariant false true false false false.        (* + sender dropped before the IO join *)
-Definition v_take_drop_wake : variant := mkVariant false true true false false.    (* + join wakes the thread *)
-Definition v_repaired : variant := mkVariant false true true true false.
+Definition v_pinned : variant := mkVariant true false false false false false false.
+Definition v_take_only : variant := mkVariant false false false false false false false.       (* unwrap replaced, nothing else *)
+Definition v_take_drop : variant := mkVariant false true false false false false false.        (* + sender dropped before the IO join *)
+Definition v_take_drop_wake : variant := mkVariant false true true false false false false.    (* + join wakes the thread *)
+Definition v_first_repair : variant := mkVariant false true true true false false false.       (* + select arm completes (051876a) *)
+Definition v_repaired : variant := mkVariant false true true true false true true.             (* + dead thread / poisoned lock tolerated *)
 (* everything except the wake-up, with the shutdown handler registered before the blocking accept instead *)
-Definition v_register_first : variant := mkVariant false true false true true.
+Definition v_register_first : variant := mkVariant false true false true true true true.
